@@ -75,12 +75,17 @@ def inner_text(sub):
         return "alias zz"
     if k == "builtin-pipeline":
         return "alias zz | vp_st flt 0 | vp_st flt 0"
+    if k == "pipeline-into-builtin":
+        return "vp_out %s | alias zz" % i          # the last stage of the inner pipeline is a builtin (run in a child)
     if k == "quoted-args":
         # further arguments of the inner command that look like the end of the substitution or of a quote
         return "vp_out %s %s" % (i, " ".join(INNER_DECOYS[j][0] for j in sub["decoys"]))
     if k == "nested":
         # the inner command's argument comes from a substitution of the other spelling (out.N<id> holds <id>)
         return ("vp_out `vp_out N%s`" % i) if sub["form"] == "dollar" else ("vp_out $(vp_out N%s)" % i)
+    if k in ("function", "function2"):
+        # a function defined by a sourced file; its body runs the observer (function2: a second command after it)
+        return "fn%s" % i
     if k == "notfound":
         return "vp_nonexistent_cmd"
     if k == "unparsable":
@@ -89,10 +94,12 @@ def inner_text(sub):
 
 
 def sub_output(sub):
-    if sub["inner"] in ("builtin", "builtin-pipeline"):
+    if sub["inner"] in ("builtin", "builtin-pipeline", "pipeline-into-builtin"):
         return "alias zz='vp_b'\n"
     if sub["inner"] in ("notfound", "unparsable"):
         return ""
+    if sub["inner"] == "function2":
+        return expand_out(sub["out"]) + "second line\n"
     return expand_out(sub["out"])
 
 
@@ -111,10 +118,12 @@ def build(case):
             word += ("$(%s)" % it) if sub["form"] == "dollar" else ("`%s`" % it)
             exp += strip_nl(sub_output(sub))
     ctx = case["ctx"]
-    pre = "alias zz=vp_b ; " if any(p[0] == "sub" and p[1]["inner"].startswith("builtin") for p in parts) else ""
+    pre = "alias zz=vp_b ; " if any(p[0] == "sub" and "builtin" in p[1]["inner"] for p in parts) else ""
     for p in parts:
         if p[0] == "sub" and p[1]["inner"] == "var":
             pre += "KID%s=%s ; " % (p[1]["id"], p[1]["id"])
+    if any(p[0] == "sub" and p[1]["inner"] in ("function", "function2") for p in parts):
+        pre += "source $VP_DIR/fns.sh ; "
     if ctx == "unq":
         line = "vp_argv %s" % word
     elif ctx == "dq":
@@ -153,6 +162,12 @@ def run_case(case):
             if sub["inner"] == "nested":
                 with open(os.path.join(sb.vpdir, "out.N%s" % sub["id"]), "w") as f:
                     f.write(sub["id"] + "\n")
+            if sub["inner"] in ("function", "function2"):
+                with open(os.path.join(sb.vpdir, "fns.sh"), "a") as f:
+                    f.write("function fn%s {\n    vp_out %s\n%s}\n" % (
+                        sub["id"], sub["id"], "    vp_out X%s\n" % sub["id"] if sub["inner"] == "function2" else ""))
+                with open(os.path.join(sb.vpdir, "out.X%s" % sub["id"]), "w") as f:
+                    f.write("second line\n")
     line, exp = build(case)
     r = run_cicada(sb, ["-c", line], timeout=20.0, budget=3000, env_extra={"NAME1": "n1val"})
     return line, exp, r, sb.records()
@@ -209,7 +224,7 @@ def symptom(case, exp, r, recs):
                 return "wrong-text"
     # inner stderr reaches the driver's stderr
     for sub in subs:
-        if sub["inner"] in ("simple", "pipeline", "failing", "var", "nested", "quoted-args"):
+        if sub["inner"] in ("simple", "pipeline", "failing", "var", "nested", "quoted-args", "function", "function2"):
             if ("ERR-%s\n" % sub["id"]).encode() not in r.err:
                 return "inner-stderr-lost"
     for sub in subs:
@@ -276,7 +291,7 @@ def gen_case(rng, k):
         cls = rng.choice(list(OUTPUTS))
         if cls == "large" and any(p[0] == "sub" and p[1]["cls"] == "large" for p in parts):
             cls = "plain"        # two of them in one word exceed what execve accepts for a single argument
-        inner = rng.choice(["simple"] * 6 + ["pipeline", "failing", "var", "builtin", "builtin-pipeline", "notfound", "unparsable", "nested", "nested", "quoted-args", "quoted-args"])
+        inner = rng.choice(["simple"] * 6 + ["pipeline", "failing", "var", "builtin", "builtin-pipeline", "notfound", "unparsable", "nested", "nested", "quoted-args", "quoted-args", "function", "function2", "pipeline-into-builtin"])
         parts.append(("sub", {"form": rng.choice(["dollar", "backquote"]), "inner": inner, "cls": cls,
                               "out": rng.choice(OUTPUTS[cls]), "id": "K%d" % i}))
         if inner in ("simple", "pipeline", "failing", "var") and rng.random() < 0.06:
@@ -313,7 +328,7 @@ def run(tier, seed):
     rep = Report("C11", tier, seed)
     rep.rule = ("1..3 substitutions ($() or backquotes) per word with literal text around them, in unquoted / double-quoted "
                 "/ assignment / here-string context; inner commands: observer vp_out (simple, in a pipeline, failing, "
-                "named through a shell variable, with quoted arguments containing ) ( \\ and quotes, containing a substitution of the other spelling), a builtin, a not-found and an unparsable command; output texts from "
+                "named through a shell variable, run by a function (one command, two commands), with quoted arguments containing ) ( \\ and quotes, containing a substitution of the other spelling), a builtin, a not-found and an unparsable command; output texts from "
                 "18 classes ($1, ${x}, $NAME, backslashes, *, braces, regex-special, interior/trailing newlines, "
                 "leading/trailing blanks, nested substitution syntax, operators, quotes, empty, unicode, 90 KB = more than a pipe buffer); 6% of the inner commands also write 100 KB to stderr.  Non-trivial "
                 "= always; distinct by full case.")
